@@ -66,6 +66,7 @@ class LibWorld {
   int iterate(int iters, uint64_t io_seed, const simk::IoProfile &prof, int oom_at = -1);
   void settle();                              // faults off, iterate until idle (bounded)
   void advance_ms(int64_t ms);
+  void detach_from_loop(DBusConnection *c);   // the application stops using its main loop for this connection (blocking API only from here on)
   void poke_dispatch(DBusConnection *c);      // application asks for the dispatch status and queues a dispatch if data remains
   void stop();                                // close everything, dbus_shutdown, leak checks
   int last_alloc_count = 0;
